@@ -317,6 +317,17 @@ class World:
         if self.cfg.get("lend"):
             call(self.e.get_loans())
 
+    def now(self):
+        """The simulated instant of the last thing that happened (a bar, or - with cfg["mid_actions"] - a job between bars)."""
+        return T(self.t) + (STEP / 2 if getattr(self, "mid", False) else datetime.timedelta(0))
+
+    def _act_time(self):
+        # cfg["mid_actions"]: orders and cancellations are made by a job scheduled half a step after the last bar, i.e. at an
+        # instant that is NOT the time of any bar (order events must be dated with the dispatcher's clock, whatever it is)
+        if self.cfg.get("mid_actions") and self.t > 0:
+            self.mid = True
+            self.d._set_now(self.now())
+
     # ---- one action
     def apply(self, a):
         """Returns (raised, placed_index, new_loan_ids). raised: None, ('rejected', class name) or ('crash', ...)."""
@@ -329,6 +340,7 @@ class World:
                 _, pi, si = a
                 if a[0] == "bar":  # "bar=": another bar of the pair with the SAME timestamp (e.g. hourly and daily feeds)
                     self.t += 1
+                    self.mid = False
                 d._set_now(T(self.t))
                 o, h, l, c, v = (D(x) for x in SHAPES[si])
                 v = v * unit(cfg)  # volumes are expressed in units of the base precision
@@ -345,6 +357,7 @@ class World:
                 finally:
                     self.close[pi] = c
             elif a[0] == "ord":
+                self._act_time()
                 _, kind, side, pi, amt, lim, stp, ab, ar = a
                 amt = D(amt)
                 lim = None if lim is None else D(lim)
@@ -366,6 +379,7 @@ class World:
                                       close_at_accept=self.close.get(pi)))
                 self.bars_since.append(0)
             elif a[0] == "cancel":
+                self._act_time()
                 oid = self.ids[a[1]] if 0 <= a[1] < len(self.ids) else "no-such-order"
                 call(e.cancel_order(oid))
                 self.cancelled.add(a[1])
@@ -399,7 +413,7 @@ class World:
     def applicable(self, a):
         """Strategy actions are issued from handlers, i.e. after at least one bar (so that now() exists); cancel/repay
         of an index that does not exist yet would only duplicate the 'unknown id' action."""
-        if a[0] == "bar=" and (self.t == 0 or self.last_kind not in ("bar", "bar=")):
+        if a[0] == "bar=" and (self.t == 0 or self.last_kind not in ("bar", "bar=") or getattr(self, "mid", False)):
             # bars sharing a timestamp are all processed before any strategy handler of that timestamp runs
             return False
         if a[0] not in ("bar", "bar=") and self.t == 0:
